@@ -231,6 +231,25 @@ Theorem transactions_do_not_interfere : forall g scs sched orc t,
 Proof. intros g scs sched orc t. exact (solo_l ret_of g scs sched orc t). Qed.
 Print Assumptions transactions_do_not_interfere.
 
+(* A nested call is its own transaction.  Every Transact / TransactCtx call that is let through —
+   wherever its quanta lie in the schedule, in particular between two quanta of another transaction
+   (a call made on the pool from INSIDE that one's body, on the same SqlConn object, another one, or
+   through CachedConn; with the body's context, a derived one or Background) — has a bracket of its
+   own in the driver's log: its own Begin and, if that succeeded, only its own statements and exactly
+   one end call of its own, all on its own connection; its body ran iff its own Begin succeeded; and
+   it returns nil only if ITS commit succeeded.  (Seeded change C14-9 made a nested call on the same
+   SqlConn run in the enclosing transaction: Pinned.nested_call_joins_outer_refuted.) *)
+Theorem nested_call_is_its_own_transaction : forall g scs sched orc t th r,
+  thread_of g scs sched orc t th -> tst th = TDone r -> let_through (tsc th) = true ->
+  (exists b, trace g scs sched orc t = [b] /\ ecall b = CBegin /\ eout b <> OOk /\ rruns r = 0 /\
+             rret r = RetErr (EBegin (eval b))) \/
+  (exists b S e, trace g scs sched orc t = b :: S ++ [e] /\ ecall b = CBegin /\ eout b = OOk /\
+     Forall (fun x => ent_stmt x = true) S /\ ent_end e = true /\ rruns r = 1 /\
+     Forall (fun x => econn x = sconn (tsc th)) (trace g scs sched orc t) /\
+     (rret r = RetErr ENil -> ecall e = CCommit /\ eout e = OOk)).
+Proof. intros g scs sched orc t th r H. exact (own_bracket_l g scs sched orc t th H r). Qed.
+Print Assumptions nested_call_is_its_own_transaction.
+
 (* Nested use.  A Transact / TransactCtx on the transaction's own session
    (NewSqlConnFromSession(s), CachedConn.WithSession(s)) makes no driver call, leaves the outer
    transaction as it is, and the step fails with errCantNestTx; the inner body does not exist in
